@@ -460,6 +460,35 @@ func TestC17_Enveloped(t *testing.T) {
 				t.Fatalf("one recipient's wrapped content key had a bit of its hash C3 altered: %d of %d recipients were refused, want exactly 1 (mode %d, alg %d)", refused, nrec, mode, alg)
 			}
 			cl = append(cl, "wrapped_key_c3_altered")
+			// ... and the wrapped key of one recipient cut down to every shorter length class (re-encoded, so that the envelope
+			// stays well-formed): that recipient gets an error - never a panic -, nobody else is affected
+			vk := c3[victim]
+			for _, keep := range []int{0, 1, 2, 33, 64, 65, 96, 97, vk.Len - 1} {
+				if keep >= vk.Len {
+					continue
+				}
+				cut, ok := gen.DERReplaceWhere(env, func(tl rder.TLV, _ []byte) bool { return tl.Start == vk.Start && tl.Tag == 0x04 && tl.Len == vk.Len }, 0x04,
+					func(old []byte) []byte { return old[:keep] })
+				if !ok {
+					t.Fatalf("harness: wrapped key not found again")
+				}
+				refused := 0
+				for i := 0; i < nrec; i++ {
+					out, err, pn := dec(cut, certs[i], keyOf(i))
+					if pn != nil {
+						t.Fatalf("decrypt PANICKED on an envelope whose wrapped key was cut to %d of %d bytes: %v\n%s", keep, vk.Len, pn.Val, pn.Stack)
+					}
+					if err != nil {
+						refused++
+					} else if !bytes.Equal(out, content) {
+						t.Fatalf("recipient %d got OTHER content after a wrapped key was cut to %d bytes", i, keep)
+					}
+				}
+				if refused != 1 {
+					t.Fatalf("one wrapped key cut to %d of %d bytes: %d of %d recipients refused, want exactly 1", keep, vk.Len, refused, nrec)
+				}
+			}
+			cl = append(cl, "wrapped_key_truncated")
 		}
 		// corruption: sampled single-byte substitutions
 		nm := 6
